@@ -183,6 +183,20 @@ func suiteC15(s *Suite, rng *Rng, tier string) {
 			s.Nontrivial[S(b)] = true
 		}
 	}
+	// the challenge as the verifying entry points compute it: whole lists and single proofs, both session kinds (the marker of
+	// a signature session is part of what is hashed, whichever entry point is used)
+	{
+		kp := makeKey(128, 0, 4, rng, false)
+		for _, issig := range []bool{false, true} {
+			sess := buildSession([]builderSpec{{kind: "disclose", key: kp, secret: newSecret(rng), nattr: 3}}, rng, issig)
+			for _, flag := range []bool{false, true} {
+				_, acc, _ := verifyCase(s, fmt.Sprintf("entry-points:made-for-sig=%v:verified-as-sig=%v", issig, flag), false, sess.Pks, sess.Context, sess.Nonce, flag, nil, cloneList(sess.List))
+				if acc != (flag == issig) {
+					s.Violate("C15:session-marker-not-hashed", fmt.Sprintf("a proof made with signature flag %v verified as %v: accepted=%v", issig, flag, acc), L{issig, flag})
+				}
+			}
+		}
+	}
 	s.Notes["rule"] = "HashCommit lists (len 0..300, entries from DER boundary classes: sign, leading 0x80, " +
 		"-2^(8n-1), byte lengths 126..257 and 64k in thorough), createChallenge, GetHashNumber over " +
 		"{a,b nil/non-nil} x index x bitlen, IntHashSha256 over padding-boundary lengths; " +
